@@ -56,6 +56,14 @@ func c02Bases() []struct {
 			img  []byte
 		}{fmt.Sprintf("layout%d", i), pegen.Build(l)})
 	}
+	out = append(out, struct {
+		name string
+		img  []byte
+	}{"110KB-image", pegen.Build(peBigLayout())})
+	out = append(out, struct {
+		name string
+		img  []byte
+	}{"chunk-boundary-image", pegen.Build(peChunkBoundaryLayout())})
 	if b, err := os.ReadFile("/repo/authenticode/testdata/test.pecoff"); err == nil {
 		out = append(out, struct {
 			name string
@@ -75,7 +83,7 @@ func c02Units(tier string) []string {
 			for s := 0; s < c02ByteShards; s++ {
 				u = append(u, fmt.Sprintf("bytes#%s#k%d#%d", b.name, k, s))
 			}
-			u = append(u, fmt.Sprintf("edits#%s#k%d", b.name, k))
+			u = append(u, fmt.Sprintf("edits#%s#k%d", b.name, k), fmt.Sprintf("order#%s#k%d", b.name, k))
 		}
 	}
 	return append(u, "transplants")
@@ -196,15 +204,71 @@ func c02Run(c *hx.Ctx, tier, unit string) {
 		if len(s) > 4000 && tier != "thorough" {
 			stride = 2
 		}
+		if len(s) > 20000 {
+			stride = 211 // large image: a prime stride over the body, every byte of the last 4 KiB (the table)
+		}
 		mut := append([]byte{}, s...)
 		for _, m := range masks {
 			for off := shard * stride; off < len(s); off += c02ByteShards * stride {
+				if stride > 2 && off > len(s)-4096 {
+					break
+				}
 				mut[off] = s[off] ^ m
 				c02Judge(c, mut, "single byte change @"+strconv.Itoa(off), certs, false)
 				mut[off] = s[off]
 				if c.Expired() {
 					return
 				}
+			}
+			if stride > 2 {
+				for off := len(s) - 4096 + shard; off < len(s); off += c02ByteShards {
+					mut[off] = s[off] ^ m
+					c02Judge(c, mut, "single byte change @"+strconv.Itoa(off), certs, false)
+					mut[off] = s[off]
+				}
+			}
+		}
+	case "order":
+		// one parsed image object verified against several certificates in every order: each verdict
+		// must be the one a fresh parse gives (no memory of earlier verifications)
+		img := find(parts[1])
+		k, _ := strconv.Atoi(strings.TrimPrefix(parts[2], "k"))
+		s, _, err := c02Sign(img, k)
+		if err != nil {
+			return
+		}
+		certs := c02CertSet(k)
+		fresh := make([]bool, len(certs))
+		for i, ct := range certs {
+			p, _ := authenticode.Parse(bytes.NewReader(s))
+			fresh[i], _ = p.Verify(ct.c)
+		}
+		for _, order := range pegen.Perms(len(certs)) {
+			for _, twice := range []bool{false, true} {
+				if !c.Next() {
+					continue
+				}
+				p, perr := authenticode.Parse(bytes.NewReader(s))
+				if perr != nil {
+					continue
+				}
+				seq := order
+				if twice {
+					seq = append(append([]int{}, order...), order...)
+				}
+				for _, ci := range seq {
+					var ok bool
+					if pn := hx.Try(func() { ok, _ = p.Verify(certs[ci].c) }); pn != nil {
+						break
+					}
+					if ok != fresh[ci] {
+						c.Outcome("order-dependent")
+						c.Violation("C02 verdict of image verification depends on verifications made earlier on the same parsed object (against "+certs[ci].name+")", map[string]any{"order": seq, "fresh_verdicts": fresh})
+						break
+					}
+				}
+				c.Outcome("order-independent")
+				c.Nontrivial([]byte(parts[1]), []byte(fmt.Sprint(seq)))
 			}
 		}
 	case "edits":
